@@ -11,12 +11,15 @@ and the machine specification the theorems are stated against:
 Non-determinism / environment made explicit:
   * `MCfg.missed k x y`  - chip (x, y) silently misses the k-th fill (k = number of
     start packets seen before it); theorems quantify over every such function;
-  * `Ctl.compress`       - `regions.compress_flood_fill_regions` (property C12); the
-    theorems assume only its contract (`CompressOK`), the driver instantiates it with the
-    pairs the implementation produced and checks the contract on them.
+  * `Ctl.compress`       - `regions.compress_flood_fill_regions` (property C12); the general
+    theorems assume only its contract (`CompressOK`); the `_c12` theorems instantiate it with
+    C12's model (`compressC12` = `Rig.C12.compressD`), for which the contract is proved.  The driver
+    runs the controller both ways: with the pairs the implementation produced (and checks the
+    contract on them) and with C12's model (op `load` without a `compress` table).
 -/
 import RigModel.Model.Proto
 import RigModel.Model.C07
+import RigModel.Model.C12
 import RigModel.Gen.Load
 import RigModel.Gen.Scp
 
@@ -198,6 +201,14 @@ structure Ctl where
   nTries : Nat
   wait : Bool
   useCount : Bool
+
+/-- `compress_flood_fill_regions` as C12 models it: the `{(x, y): cores}` dictionary inserted into
+the region tree in iteration order, the pairs emitted and sorted (`Rig.C12.compress`); outside
+C12's domain (where the code raises ValueError) no pairs.  Props/C12 calls this `compressD`. -/
+def compressC12 (tg : List (Nat × Nat × List Nat)) : List (Nat × Nat) :=
+  match Rig.C12.compress (tg.flatMap fun e => e.2.2.map fun (p : Nat) => ((e.1 : Int), (e.2.1 : Int), (p : Int))) with
+  | .ok out => out
+  | .error _ => []
 
 /-- controller + machine + the request/reply log (newest first) -/
 structure Sim where
@@ -459,6 +470,83 @@ def resendOK (chips : List (Nat × Nat)) (a : App) (sent : List (Nat × Nat × L
     wants { a with targets := sent } c.1 c.2.1 c.2.2 ==
       (wants a c.1 c.2.1 c.2.2 && (first || !loaded a appId (core c.1 c.2.1 c.2.2)))
 
+/-! ### which pre-states make a normal return unsound (the stale-waiter findings)
+
+`load_application` decides "loaded" from the wait state alone (read-back) or from the number of
+cores waiting under the app id (count shortcut).  Cores that were ALREADY waiting before the call
+defeat both.  `staleMasks pre req missed` says exactly when, for the set `missed` of cores that
+violate the post-condition of a normal return (`Props/C09Stale.lean`,
+`load_sound_iff_preclean_needed`). -/
+
+/-- stale waiters on other cores: cores of the machine that were not requested and wait under the
+app id before the call -/
+def staleOthers (chips : List (Nat × Nat)) (apps : List App) (appId : Nat) (pre : Nat → Nat → Nat → Core) : Nat :=
+  (allCores chips).countP fun k =>
+    (wantedBy apps k.1 k.2.1 k.2.2).isNone && matchesApp (pre k.1 k.2.1 k.2.2) stWait appId
+
+/-- requested cores that before the call already are what a started load leaves: running the named
+binary under the app id (only with `wait = False`; such a core satisfies the post-condition without
+being loaded) -/
+def alreadyRunning (chips : List (Nat × Nat)) (apps : List App) (appId : Nat) (wait : Bool)
+    (pre : Nat → Nat → Nat → Core) : Nat :=
+  (allCores chips).countP fun k =>
+    match wantedBy apps k.1 k.2.1 k.2.2 with
+    | some a => !wait && pre k.1 k.2.1 k.2.2 == ⟨stRun, appId, a.image⟩
+    | none => false
+
+/-- `readback-stale-waiter`: every missed core was itself in the wait state before the call (with
+anything but its binary under the app id): the read-back takes it as loaded -/
+def staleSelf (pre : Nat → Nat → Nat → Core) (missed : List (Nat × Nat × Nat)) : Bool :=
+  missed.all fun k => (pre k.1 k.2.1 k.2.2).state == stWait
+
+/-- `count-shortcut-stale-waiters`: count mode, and the stale waiters on other cores are exactly as
+many as the missed cores that do not themselves wait under the app id (up to the requested cores
+that were already running their binary): the count `core_count == count_cores_in_state("wait")`
+comes out right although cores are missing -/
+def staleCount (chips : List (Nat × Nat)) (apps : List App) (appId : Nat) (wait useCount : Bool)
+    (pre : Nat → Nat → Nat → Core) (missed : List (Nat × Nat × Nat)) : Bool :=
+  let nb := missed.countP fun k => !matchesApp (pre k.1 k.2.1 k.2.2) stWait appId
+  useCount && decide (nb ≤ staleOthers chips apps appId pre) &&
+    decide (staleOthers chips apps appId pre ≤ nb + alreadyRunning chips apps appId wait pre)
+
+/-- **StaleMasks pre req missed**: `missed` is a non-empty set of requested cores none of which holds
+its binary in the wait state under the app id before the call, and the stale waiters of the
+pre-state hide them from the verification: `staleSelf` or `staleCount` -/
+def staleMasks (chips : List (Nat × Nat)) (apps : List App) (appId : Nat) (wait useCount : Bool)
+    (pre : Nat → Nat → Nat → Core) (missed : List (Nat × Nat × Nat)) : Bool :=
+  !missed.isEmpty &&
+  (missed.all fun k =>
+    match wantedBy apps k.1 k.2.1 k.2.2 with
+    | some a => !loaded a appId (pre k.1 k.2.1 k.2.2)
+    | none => false) &&
+  (staleSelf pre missed || staleCount chips apps appId wait useCount pre missed)
+
+/-- the same for `SpiNNakerLoadingError`: `missed` is a non-empty set of requested cores that are
+not named by the error although they are not loaded; each of them was in the wait state before the
+call without holding its binary under the app id (the read-back dropped it from the map) -/
+def staleHides (apps : List App) (appId : Nat) (pre : Nat → Nat → Nat → Core)
+    (missed : List (Nat × Nat × Nat)) : Bool :=
+  !missed.isEmpty &&
+  (missed.all fun k =>
+    match wantedBy apps k.1 k.2.1 k.2.2 with
+    | some a => !loaded a appId (pre k.1 k.2.1 k.2.2)
+    | none => false) &&
+  staleSelf pre missed
+
+/-- the machine reads the request as a signal (`send_signal`): SCP command `signal` with the
+nearest-neighbour message type; the count request (`count_cores_in_state`) is not one -/
+def isSignalPkt (r : Req) : Bool :=
+  match decode r with
+  | .signal _ _ _ => true
+  | _ => false
+
+/-- oracle on the requests of one `load_application` call (oldest first): if the call returned
+normally with `wait = False` (`started`) the last request is `send_signal("start", app_id)` and no
+other request is a signal packet; otherwise no request is a signal packet -/
+def startOnceOK (appId : Nat) (started : Bool) (reqs : List Req) : Bool :=
+  if started then reqs.getLast? == some (startReq appId) && reqs.dropLast.all (fun r => !isSignalPkt r)
+  else reqs.all (fun r => !isSignalPkt r)
+
 /-! ### line protocol -/
 open Lean Rig.P
 
@@ -531,19 +619,27 @@ def initState (j : Json) : R MState := do
          rx := { idx := 0, pid := 0, nBlocks := 0, got := 0, next := 0, regs := [], data := [], ok := false },
          fills := 0 }
 
+/-- `[[targets, pairs], ...]`: what `compress_flood_fill_regions` returned in the implementation's run -/
+def tableOfJson (j : Json) : R (List (List (Nat × Nat × List Nat) × List (Nat × Nat))) := do
+  (← asArr j).mapM fun e =>
+    asPair e (fun t => do (← asArr t).mapM targetOfJson) (fun r => do (← asArr r).mapM pairOfJson)
+
 def handle (op : String) (j : Json) : R Json := do
   match op with
   | "load" =>
     -- run the controller model against the machine specification
     let mc ← mcfgOfJson j
     let m ← initState j
-    let table ← (← arr j "compress").mapM fun e =>
-      asPair e (fun t => do (← asArr t).mapM targetOfJson) (fun r => do (← asArr r).mapM pairOfJson)
+    -- `compress`: the table of (targets, pairs) the implementation produced, or - without a table -
+    -- C12's model of compress_flood_fill_regions (the controller of the `_c12` theorems)
+    let table ← opt j "compress" tableOfJson
     let c : Ctl := { buf := ← nat j "buf", appId := ← nat j "app_id", nTries := ← nat j "n_tries",
                      wait := ← bool j "wait", useCount := ← bool j "use_count",
-                     compress := fun t => match table.find? (fun e => e.1 == t) with
-                       | some e => e.2
-                       | none => [(4294967295, 0)] }
+                     compress := match table with
+                       | none => compressC12
+                       | some table => fun t => match table.find? (fun e => e.1 == t) with
+                         | some e => e.2
+                         | none => [(4294967295, 0)] }
     let apps ← (← arr j "apps").mapM appOfJson
     let r := loadApplication mc c { m := m, nn := ← nat j "nn", trace := [] } apps
     pure (Json.mkObj [
@@ -571,6 +667,27 @@ def handle (op : String) (j : Json) : R Json := do
     let wf := wellFormedFill (← nat j "buf") (← nats j "image") (← nat j "app_id") (← nat j "flags") (reqs.map decode)
     let same := isFillPkts (← nat j "buf") (← nats j "image") (← nat j "app_id") (← nat j "flags") (reqs.map decode)
     pure (Json.mkObj [("ok", Json.bool (wf && same)), ("wf", Json.bool wf), ("same", Json.bool same)])
+  | "stale" =>
+    -- classification of a post-condition violation: does the proved predicate hold on the case?
+    let chips ← (← arr j "chips").mapM pairOfJson
+    let pre ← coresOfJson (← arr j "before")
+    let apps ← (← arr j "apps").mapM appOfJson
+    let appId ← nat j "app_id"
+    let wait ← bool j "wait"
+    let useCount ← bool j "use_count"
+    let missed ← (← arr j "missed").mapM fun c => do
+      match ← asArr c with
+      | [x, y, p] => pure (← asNat x, ← asNat y, ← asNat p)
+      | _ => .error "expected [x, y, p]"
+    pure (Json.mkObj [
+      ("masks", Json.bool (staleMasks chips apps appId wait useCount pre missed)),
+      ("hides", Json.bool (staleHides apps appId pre missed)),
+      ("self", Json.bool (staleSelf pre missed)),
+      ("count", Json.bool (staleCount chips apps appId wait useCount pre missed))])
+  | "start_once" =>
+    -- oracle: all requests of the implementation's call, oldest first
+    pure (Json.mkObj [("ok", Json.bool (startOnceOK (← nat j "app_id") (← bool j "started")
+      (← (← arr j "reqs").mapM reqOfJson)))])
   | "regions_ok" =>
     let chips ← (← arr j "chips").mapM pairOfJson
     pure (Json.mkObj [("ok", Json.bool (regionsOK chips (← (← arr j "targets").mapM targetOfJson)
